@@ -571,7 +571,9 @@ fn ring_family(plan: &Plan) -> RunResult {
                     let only_displaced = what == "index"
                         && before.index.iter().zip(after.index.iter()).enumerate().all(|(i, (b, a))| {
                             let id = i as u64 + 1;
-                            b == a || (b.is_some() && a.is_none() && (id + ring == k || id + ring == k + 1))
+                            // only a block that was wound and then unwound by this call can have displaced an
+                            // entry: that is block K, and only when the tip was still K-1 before the call
+                            b == a || (b.is_some() && a.is_none() && tip_before.0 == k - 1 && id + ring == k)
                         });
                     if only_displaced {
                         r.violate(
